@@ -110,6 +110,16 @@ fn mod_n_from_hash(w: &mut World, op: &Value) -> R<Value> {
     let class = class_of(&out);
     let case = fnv(&[b"modn", &data]);
     w.check_class(&["C20"], "sm9.mod_n_from_hash", &class, &format!("ha.{}", len_class(data.len(), 40)), case, "");
+    if let (Outcome::Done(Ok(v)), true) = (&out, data.len() >= 40) {
+        // riding along (C16 is not claimed: this shows up under other_property_observations only):
+        // the value is (Ha mod (N-1)) + 1 for the first 40 bytes
+        use num_bigint::BigUint;
+        let n = crate::refmodel::sm9::with(|s| s.n.clone());
+        let want = (BigUint::from_bytes_be(&data[..40]) % (&n - 1u32)) + 1u32;
+        let got = glue::limbs_to_big(v);
+        let key = json!({"entry":"sm9.mod_n_from_hash","class":"ha.len>=40","outcome":"Ok"});
+        w.check("C16", "hash-to-range-exact", got == want, case, key, || format!("mod_n_from_hash({}) = {got:x}, want {want:x}", hex::encode(&data[..40])));
+    }
     Ok(json!({"class": class.as_str()}))
 }
 
